@@ -7,6 +7,7 @@ import (
 	"encoding/json"
 	"fmt"
 	"io"
+	"io/fs"
 	"net/textproto"
 	"os"
 	"path/filepath"
@@ -49,7 +50,7 @@ const c11SweepOp = 15
 
 var (
 	c11Shapes = []string{"single", "alternative", "body+attachment", "body+embed", "attachment-only", "preformatted-and-many-generic-headers", "smime-single", "smime+attachment", "two-attachments-only", "body-writer+file-writer (switchable source fault)", "caller-fixed boundary: alternative+attachment (nested multiparts)", "caller-fixed boundary: S/MIME alternative+attachment", "single body with a transfer encoding outside go-mail's constants (binary)", "PGP/MIME encrypted (WithPGPType, two caller-supplied parts)", "PGP/MIME signed (SetPGPType, body + detached signature part)"}
-	c11Srcs   = []string{"reader", "readseeker", "file", "fs.FS", "text-template", "reader(*bytes.Reader, partially consumed)", "reader(*strings.Reader)", "readseeker(partially consumed)", "reader(*os.File)", "embed.FS"}
+	c11Srcs   = []string{"reader", "readseeker", "file", "fs.FS", "text-template", "reader(*bytes.Reader, partially consumed)", "reader(*strings.Reader)", "readseeker(partially consumed)", "reader(*os.File)", "embed.FS", "fs.FS(reads fail while the source fault is on)", "readseeker(reads fail while the source fault is on)"}
 	c11Ops    = []string{"WriteTo", "Write", "NewReader", "UpdateReader", "WriteToFile", "WriteToTempFile", "Send", "WriteTo(sink fails at 0)", "WriteTo(sink fails mid-way)",
 		"WriteTo(while the content source fails)", "NewReader(while the content source fails)", "UpdateReader(while the content source fails)", "Send(while the content source fails)", "NewReader(only 64 bytes read)", "NewReader(copied into a failing sink)", "WriteTo(sink fails at byte K)"}
 )
@@ -66,8 +67,56 @@ var c11EmbedFS embed.FS
 
 var c11FileContent = []byte("file content line one\nline two with bare LF\r\nbinary: \x00\x01\xfe\xff = . end\n")
 
-// c11Fault is the switchable source fault of shape 9.
+// c11Fault is the switchable source fault of shape 9 and of the two fault-capable file sources.
 type c11Fault struct{ on bool }
+
+// c11SrcHasFault: the file source has a switchable fault (a read in the middle of the content fails while it is on).
+func c11SrcHasFault(src int) bool { return strings.Contains(c11Srcs[src], "source fault") }
+
+// c11FaultRS is a read-seeker whose reads beyond the middle of its content fail while the fault is on (a transient
+// error of the medium behind the file).
+type c11FaultRS struct {
+	rd  *bytes.Reader
+	flt *c11Fault
+}
+
+func (f *c11FaultRS) Read(p []byte) (int, error) {
+	if f.flt.on {
+		pos, _ := f.rd.Seek(0, io.SeekCurrent)
+		half := f.rd.Size() / 2
+		if pos >= half {
+			return 0, errProducer
+		}
+		if int64(len(p)) > half-pos {
+			p = p[:half-pos]
+		}
+	}
+	return f.rd.Read(p)
+}
+func (f *c11FaultRS) Seek(off int64, whence int) (int64, error) { return f.rd.Seek(off, whence) }
+
+// c11FaultFS is a one-file fs.FS whose files are such read-seekers.
+type c11FaultFS struct {
+	name string
+	flt  *c11Fault
+}
+
+type c11FaultFile struct {
+	c11FaultRS
+	name string
+}
+
+func (f *c11FaultFile) Stat() (fs.FileInfo, error) {
+	return fstest.MapFS{f.name: &fstest.MapFile{Data: c11FileContent}}.Stat(f.name)
+}
+func (f *c11FaultFile) Close() error { return nil }
+
+func (f c11FaultFS) Open(name string) (fs.File, error) {
+	if name != f.name {
+		return nil, &fs.PathError{Op: "open", Path: name, Err: fs.ErrNotExist}
+	}
+	return &c11FaultFile{c11FaultRS{rd: bytes.NewReader(c11FileContent), flt: f.flt}, name}, nil
+}
 
 var c11Faults sync.Map // *mail.Msg -> *c11Fault
 
@@ -219,6 +268,22 @@ func c11Build(cfg c11Cfg, dir string) (*mail.Msg, error) {
 				note(m.EmbedFromIOFS(name, fsys, fo...))
 			} else {
 				note(m.AttachFromIOFS(name, fsys, fo...))
+			}
+		case "fs.FS(reads fail while the source fault is on)":
+			flt := &c11Fault{}
+			c11Faults.Store(m, flt)
+			if embed {
+				note(m.EmbedFromIOFS(name, c11FaultFS{name, flt}, fo...))
+			} else {
+				note(m.AttachFromIOFS(name, c11FaultFS{name, flt}, fo...))
+			}
+		case "readseeker(reads fail while the source fault is on)":
+			flt := &c11Fault{}
+			c11Faults.Store(m, flt)
+			if embed {
+				m.EmbedReadSeeker(name, &c11FaultRS{rd: bytes.NewReader(c11FileContent), flt: flt}, fo...)
+			} else {
+				m.AttachReadSeeker(name, &c11FaultRS{rd: bytes.NewReader(c11FileContent), flt: flt}, fo...)
 			}
 		case "embed.FS":
 			if embed {
@@ -602,8 +667,8 @@ func init() {
 								hasSrcOp = true
 							}
 						}
-						if hasSrcOp && cfg.Shape != 9 {
-							continue // only shape 9 has a switchable content source
+						if hasSrcOp && cfg.Shape != 9 && !(c11HasFile(cfg.Shape) && c11SrcHasFault(cfg.Src)) {
+							continue // only shape 9 and two of the file sources have a switchable content fault
 						}
 						if r.Thorough && L == 4 {
 							// length 4: Write and WriteToTempFile are thin wrappers of WriteTo / WriteToFile and left to lengths <= 3
